@@ -3,9 +3,7 @@
 //! the whole-batch answers cross-checked against the same rows predicted in small batches.
 
 use crate::data::{build, Built, Case, FAR_S};
-use crate::oracle::{fit_model, judge_rows, MARGIN_FLOOR};
-use linfa::traits::Predict;
-use ndarray::Array2;
+use crate::oracle::{fit_model, judge_rows};
 use serde::{Deserialize, Serialize};
 use vengine::gen::SplitMix;
 use vengine::Obs;
@@ -14,8 +12,6 @@ use vengine::Obs;
 pub const BATCH_M: [usize; 7] = [257, 255, 256, 300, 513, 900, 1025];
 /// sizes of the small batches of the cross-check
 pub const SMALL: [usize; 5] = [1, 7, 64, 100, 250];
-/// whole-batch and small-batch probabilities of the same row may differ by this much
-pub const BATCH_PROBA_TOL: f64 = 1e-12;
 
 #[derive(Debug, Clone, Serialize, Deserialize)]
 pub struct BigCase {
@@ -63,10 +59,18 @@ fn rows_for(c: &BigCase, b: &Built) -> Vec<(Vec<f64>, Option<usize>)> {
         };
         out.push(row);
     }
+    if c.base.f32 {
+        for (x, _) in out.iter_mut() {
+            for v in x.iter_mut() {
+                *v = c.base.round(*v);
+            }
+        }
+    }
     out
 }
 
 pub fn check(c: &BigCase, obs: &mut Obs) {
+    let c = &BigCase { base: c.base.clone().sanitised(), ..c.clone() };
     let b = build(&c.base);
     if b.rows.is_empty() || b.centres.is_empty() {
         obs.skip("case_too_small");
@@ -99,16 +103,13 @@ pub fn check(c: &BigCase, obs: &mut Obs) {
     let mut small_proba: Vec<Vec<f64>> = Vec::with_capacity(m);
     let mut ok = true;
     for chunk in rows.chunks(small) {
-        let flat: Vec<f64> = chunk.iter().flat_map(|(x, _)| x.iter().copied()).collect();
-        let Ok(qx) = Array2::from_shape_vec((chunk.len(), p), flat) else {
-            return;
-        };
-        let pr = obs.call("predict_proba", || f.model.predict_proba(&qx));
-        let pd = obs.call("predict", || f.model.predict(&qx));
+        let crow: Vec<&[f64]> = chunk.iter().map(|(x, _)| x.as_slice()).collect();
+        let pr = obs.call("predict_proba", || f.model.predict_proba(&crow, p)).flatten();
+        let pd = obs.call("predict", || f.model.predict(&crow, p)).flatten();
         match (pr, pd) {
-            (Some(pr), Some(pd)) if pd.len() == chunk.len() && pr.dim() == (chunk.len(), f.k) => {
+            (Some((dim, pr)), Some(pd)) if pd.len() == chunk.len() && dim == (chunk.len(), f.k) => {
                 small_labels.extend(pd.iter().copied());
-                small_proba.extend(pr.rows().into_iter().map(|r| r.to_vec()));
+                small_proba.extend(pr);
             }
             _ => {
                 ok = false;
@@ -131,7 +132,7 @@ pub fn check(c: &BigCase, obs: &mut Obs) {
             let (wl, dwl) = (&out.wl[r], &out.dwl[r]);
             let (a, s) = (labels[r], small_labels[r]);
             let separated = match (wl.get(a), wl.get(s), dwl.get(a), dwl.get(s)) {
-                (Some(wa), Some(ws), Some(da), Some(ds)) => (wa - ws).abs() > MARGIN_FLOOR + da + ds,
+                (Some(wa), Some(ws), Some(da), Some(ds)) => (wa - ws).abs() > f.tol.margin_floor + da + ds,
                 _ => true,
             };
             if separated {
@@ -155,7 +156,7 @@ pub fn check(c: &BigCase, obs: &mut Obs) {
                 .zip(&small_proba[r])
                 .map(|(x, y)| if x == y { 0.0 } else { (x - y).abs() })
                 .fold(0.0f64, |acc, d| if d.is_nan() { f64::INFINITY } else { acc.max(d) });
-            if worst > BATCH_PROBA_TOL {
+            if worst > f.tol.batch_proba {
                 obs.fail(
                     "proba:batch-size-dependent",
                     format!(
